@@ -43,7 +43,7 @@ class YowMessagesProtocolLayer(YowProtocolLayer):
                             MessageMetaAttributes.from_message_protocoltreenode(node)
                         )
                     )
-                elif not message.sender_key_distribution_message:
+                elif not AttributesConverter.get().protobytes_is_key_distribution_only(protoNode.getData()):
                     # Will send receipts for unsupported message types to prevent stream errors
                     logger.warning("Unsupported message type: %s, will send receipts to "
                                    "prevent stream errors" % message)
